@@ -159,6 +159,13 @@ def _check_encoding(spec, ctx, all_tags, vocab, tags, scores):
             continue
         if float(got_p[i]) != float(np.float32(exp)):
             ctx.fail(f"prediction_encoding[{i}] = {got_p[i]}, expected {exp}", spec, got_p.tolist(), exp, kind="prediction")
+    # results belong to the caller: a later call must not overwrite an earlier result
+    keep_ml, keep_p = got_ml.copy(), got_p.copy()
+    others = list(reversed(all_tags))[: max(1, len(all_tags) // 2)]
+    encoding.multilabel_encoding(others, enc)
+    encoding.prediction_encoding([data.PredictedTag(tag=t, score=1.0) for t in others], enc)
+    if not np.array_equal(got_ml, keep_ml) or not np.array_equal(got_p, keep_p):
+        ctx.fail("an earlier multilabel / prediction encoding changed after the function was called again (results share a buffer)", spec, [got_ml.tolist(), got_p.tolist()], [keep_ml.tolist(), keep_p.tolist()], kind="result_aliased")
     # out-of-vocabulary tags never influence any result
     kept = [(t, s) for t, s, i in zip(tags, scores, in_vocab) if i is not None]
     kt = [t for t, _ in kept]
